@@ -5,6 +5,7 @@ debug_assert!, bounds check) under the kernel's documented limb precondition is 
 interval arithmetic or by the solver - and the functional goals are re-established on that IR, so the
 checked build computes the same function as the release build checked by C01/C02."""
 from vp import build
+from vp import native
 from vp.lharness import *
 from checks import c01, c02
 
@@ -12,6 +13,7 @@ def run(tier, seed):
     rep = Report("C11")
     cfgs = ["serial64", "serial32"] if tier == "quick" else ["serial64", "serial32", "fiat64", "fiat32"]
     build.ir_many([dict(config=c, flavour="O3chk") for c in cfgs])
+    for c in cfgs: native.binary(c)
     tasks = []
     for cfg in cfgs:
         c01.run_config(rep, cfg, tier, tasks, flavour="O3chk")
